@@ -883,10 +883,13 @@ func (s *BlockMapSpec) visitSameBodyChildren(cb visitFunc) {
 
 // blockSpec implementation
 func (s *BlockMapSpec) blockHeaderSchemata() []hcl.BlockHeaderSchema {
+	// LabelNames is copied before appending: appending in place could write
+	// into the backing array of the spec's own slice, which concurrent
+	// decodes share.
 	return []hcl.BlockHeaderSchema{
 		{
 			Type:       s.TypeName,
-			LabelNames: append(s.LabelNames, findLabelSpecs(s.Nested)...),
+			LabelNames: append(append([]string(nil), s.LabelNames...), findLabelSpecs(s.Nested)...),
 		},
 	}
 }
@@ -1041,10 +1044,11 @@ func (s *BlockObjectSpec) visitSameBodyChildren(cb visitFunc) {
 
 // blockSpec implementation
 func (s *BlockObjectSpec) blockHeaderSchemata() []hcl.BlockHeaderSchema {
+	// LabelNames is copied before appending; see BlockMapSpec.
 	return []hcl.BlockHeaderSchema{
 		{
 			Type:       s.TypeName,
-			LabelNames: append(s.LabelNames, findLabelSpecs(s.Nested)...),
+			LabelNames: append(append([]string(nil), s.LabelNames...), findLabelSpecs(s.Nested)...),
 		},
 	}
 }
